@@ -59,7 +59,8 @@ def _case(draw, nr_max, accept, route=None, rem=None):
         nr = max(3, 4 * draw(st.one_of(st.integers(0, 6), st.integers(0, nr_max // 4))) + rem)
         if nr % 4 == 0:
             nr += rem
-    m.update({"cutoff": cutoff, "nr": nr, "route": route})
+    m.update({"cutoff": cutoff, "nr": nr, "route": route,
+              "container": draw(st.sampled_from(["list", "list", "tuple", "iterator", "generator"]))})
     return m
 
 
@@ -199,11 +200,21 @@ def check_case(case):
                     v.append(("potable:rejected_good_nr", "nr=%d: %r\n%s" % (nr, e, ctx)))
                 return {"v": v, "cls": cls, "nt": True}
         else:
-            pots = pairtab.api_potentials(case)
+            cont = case.get("container", "list")
+            pots = pairtab.api_potentials(case, cont)
+            cls.append("container:" + cont)
             fp = io.StringIO()
             try:
                 if route == "api_class":
-                    DLPoly_PairTabulation(pots, cutoff, nr).write(fp)
+                    tabobj = DLPoly_PairTabulation(pots, cutoff, nr)
+                    tabobj.write(fp)
+                    if cont in ("list", "tuple"):
+                        # a tabulation object can be written again: same bytes
+                        fp_again = io.StringIO()
+                        tabobj.write(fp_again)
+                        if fp_again.getvalue() != fp.getvalue():
+                            v.append(("api:second_write_differs", "write() twice on one object: %d then %d characters" % (
+                                len(fp.getvalue()), len(fp_again.getvalue()))))
                 else:
                     ap.writePotentials("DL_POLY", pots, cutoff, nr, fp)
                 out = fp.getvalue()
@@ -214,6 +225,15 @@ def check_case(case):
                     v.append(("api:rejected_good_nr", "nr=%d: %r" % (nr, e)))
                 elif fp.getvalue() != "":
                     v.append(("api:reject_wrote_data", "nr=%d rejected but %d characters were written" % (nr, len(fp.getvalue()))))
+                if not accept and route == "api_class" and cont in ("list", "tuple"):
+                    # the refusal is a property of the row count, not of the first attempt
+                    fp2 = io.StringIO()
+                    try:
+                        tabobj.write(fp2)
+                        v.append(("api:second_write_accepts_bad_nr", "nr=%d: the first write() was refused, the second returned "
+                                  "normally with %d characters" % (nr, len(fp2.getvalue()))))
+                    except WritePotentialException:
+                        pass
                 return {"v": v, "cls": cls, "nt": True}
     except Exception as e:
         return {"v": [("write:exception:%s@%s" % (type(e).__name__, libroute.innermost_atsim_frame(e)), "%r\n%s" % (e, ctx))],
